@@ -47,6 +47,9 @@ struct Sys {
     map_lost: bool,
     /// host spans whose guest span lost its last handle while still entered in this lifetime
     orphaned: HashSet<u64>,
+    /// host spans that were open when the local span map was lost (lose / discard): nothing can
+    /// refer to them any more, by the history's own doing
+    forgotten: HashSet<u64>,
 }
 
 impl Sys {
@@ -63,6 +66,7 @@ impl Sys {
             spec_persisted: Spec::default(),
             has_host: HashMap::new(),
             orphaned: HashSet::new(),
+            forgotten: HashSet::new(),
             presented: HashSet::new(),
             born: HashSet::new(),
             lifetime_stack: vec![],
@@ -133,6 +137,7 @@ pub fn run_lines(lines: &[String], oracles: bool) -> RunResult {
     let mut seg_start = 0usize; // index of first line of the current lifetime segment
     let mut discarded: Option<(usize, Vec<String>)> = None; // (seg_start, segment lines) of last discard
     let mut had_loss = false;
+    let mut had_discard = false;
     let mut n_cuts_with_alive = 0usize;
     let mut n_rejected_with_state = 0usize;
     let mut n_entered_at_abort = 0usize;
@@ -268,6 +273,9 @@ pub fn run_lines(lines: &[String], oracles: bool) -> RunResult {
                             let k = if had_loss { "C03" } else { "C06" };
                             fail!("{k} valid event rejected: `{}` -> {tok}", e.tok());
                             fail!("C06 valid event rejected: `{}` -> {tok}", e.tok());
+                            if had_discard {
+                                fail!("C04 after a discard the retried stream is not accepted like the run without the discard: valid `{}` -> {tok}", e.tok());
+                            }
                             if max_level.is_some() {
                                 fail!("C13 a valid guest stream was rejected under a filtering host: `{}` -> {tok}", e.tok());
                             }
@@ -429,10 +437,28 @@ pub fn run_lines(lines: &[String], oracles: bool) -> RunResult {
                             let (ps, local) = recv.persist();
                             (serde_json::to_string(&pm).unwrap(), serde_json::to_string(&ps).unwrap(), local)
                         });
+                        {
+                            // C08: the host spans this chain created and has not closed are exactly the
+                            // ones the local span map still refers to (nothing leaked, nothing stale)
+                            let st = sys.host.state.lock().unwrap();
+                            let open: std::collections::BTreeSet<u64> = st.news.iter().map(|n| n.0).filter(|h| !st.closed.contains(h) && !sys.forgotten.contains(h)).collect();
+                            drop(st);
+                            let mapped: std::collections::BTreeSet<u64> = local.verif_entries().into_iter().map(|e| e.1).collect();
+                            if open != mapped {
+                                let leaked: Vec<u64> = open.difference(&mapped).copied().collect();
+                                let stale: Vec<u64> = mapped.difference(&open).copied().collect();
+                                fail!("C08 at persist: host spans {leaked:?} are open but the local span map does not refer to them (leaked); the map refers to {stale:?} which are closed or were never issued to this chain");
+                            }
+                        }
                         let mut delta = sys.host.take_log();
                         delta.sort();
                         rr.out.obs.extend(delta.iter().cloned());
                         rr.host_log_full.extend(delta.iter().cloned());
+                        if sys.spec.quiescent() && !wild && !delta.is_empty() {
+                            // C02: a cut where no guest span is entered is invisible to the host, so
+                            // persisting there makes no host call at all
+                            fail!("C02 persisting at a point where no guest span is entered made host calls: {}", delta.join(" ; "));
+                        }
                         let sk = sys.host.state.lock().unwrap().stack_line();
                         rr.out.obs.push(sk);
                         let (pml, psl) = (pm_line(&pm_text), ps_line(&ps_text));
@@ -491,6 +517,12 @@ pub fn run_lines(lines: &[String], oracles: bool) -> RunResult {
                         match mode {
                             "keep" => {}
                             "lose" => {
+                                {
+                                    let st = sys.host.state.lock().unwrap();
+                                    let open: Vec<u64> = st.news.iter().map(|n| n.0).filter(|h| !st.closed.contains(h)).collect();
+                                    drop(st);
+                                    sys.forgotten.extend(open);
+                                }
                                 had_loss = true;
                                 sys.map_lost = true;
                                 sys.has_host.clear();
@@ -502,6 +534,7 @@ pub fn run_lines(lines: &[String], oracles: bool) -> RunResult {
                                 sys.has_host.clear();
                                 sys.presented.clear();
                                 sys.host = StrictHost::new(max_level);
+                                sys.forgotten.clear();
                                 sys.dispatch = Dispatch::new(sys.host.clone());
                             }
                             _ => rr.out.obs.push("bad-op".into()),
@@ -541,9 +574,21 @@ pub fn run_lines(lines: &[String], oracles: bool) -> RunResult {
                         want.sort_unstable();
                         if closes != want {
                             fail!("C04 dropping without persisting closed host spans {closes:?}; the spans born in this lifetime and still alive are {want:?}");
+                            let leaked: Vec<u64> = want.iter().filter(|h| !closes.contains(h)).copied().collect();
+                            if !leaked.is_empty() && !wild {
+                                fail!("C08 host spans {leaked:?}, created for guest spans of the discarded lifetime, are left open with nothing referring to them (leaked)");
+                            }
+                        }
+                        {
+                            // whatever is still open now has lost its local map entry (the map dies with the receiver)
+                            let st = sys.host.state.lock().unwrap();
+                            let open: Vec<u64> = st.news.iter().map(|n| n.0).filter(|h| !st.closed.contains(h)).collect();
+                            drop(st);
+                            sys.forgotten.extend(open);
                         }
                         if op == "discard" {
                             discarded = Some((seg_start, lines[seg_start..i].to_vec()));
+                            had_discard = true;
                             sys.spec = sys.spec_persisted.clone();
                             sys.has_host.clear();
                             sys.presented.clear();
@@ -851,7 +896,7 @@ impl Suite for Receiver {
             "C06" => [0, 1, 1, 3][idx % 4],
             "C07" | "C08" => [0, 1, 7, 3, 7][idx % 5],
             "C04" => [0, 2, 2, 4][idx % 4],
-            "C02" => [0, 0, 5][idx % 3],
+            "C02" => [0, 5, 5][idx % 3],
             "C03" => [0, 3, 3][idx % 3],
             "C13" => 8,
             _ => idx % 6,
@@ -910,6 +955,15 @@ impl Suite for Receiver {
                     };
                     if cut && k + 1 < len {
                         let quiescent = g.spans.values().all(|s| s.entered == 0);
+                        if quiescent && matches!(kind, 5 | 0) && g.spans.len() >= 2 && rng.chance(1, 2) {
+                            // overlapping (non-LIFO) and re-entrant enters that are all matched again
+                            // right before the cut: the cut must still be invisible
+                            let ids: Vec<u64> = g.spans.keys().copied().collect();
+                            let (a, b) = (*rng.pick(&ids), *rng.pick(&ids));
+                            for e in [Ev::Entered(a), Ev::Entered(b), Ev::Exited(a), Ev::Entered(a), Ev::Exited(b), Ev::Exited(a)] {
+                                lines.push(format!("ev {}", e.tok()));
+                            }
+                        }
                         let op = match kind {
                             5 => if quiescent { "h persist keep" } else { continue },
                             8 => *rng.pick(&["h persist keep", "h persist keep", "h persist lose"]),
